@@ -6,7 +6,7 @@ KEYS = ["resclass", "pc", "ccr", "er", "md", "q", "msgs", "con"]
 RULE = ("random write calls (buffer placement, length classes 0,1,2,..,4096, UTF-8 alphabets incl. NUL / newline / backslash / multi-byte), call sequences, "
         "set_handler for vectors 0-255 followed by a request + boundary + handler step (also a request raised while I = 1, kept pending and delivered after an RTE clears I), other call numbers; "
         "distinct = distinct (arguments, outcome, console bytes, messages)")
-SHARD_TIMEOUT = 900
+SHARD_TIMEOUT = 2400
 
 def nontrivial_key(case, model):
     return (case.get("mem"), case.get("er"), model.get("res"), model.get("con"), model.get("msgs"))
